@@ -28,13 +28,23 @@ def make_variant(root, edits):
             os.makedirs(os.path.join(tmp, pkg))
             for n in names:
                 shutil.copy(os.path.join(root, pkg, n + '.py'), os.path.join(tmp, pkg, n + '.py'))
-        for rel, old, new in edits:
+        for ed in edits:
+            rel, old, new = ed[:3]
+            scope = ed[3] if len(ed) > 3 else None
             path = os.path.join(tmp, rel)
             src = open(path).read()
-            if src.count(old) != 1:
+            lo, hi = 0, len(src)
+            if scope:
+                span = scope_span(src, scope)
+                if span is None:
+                    shutil.rmtree(tmp, ignore_errors=True)
+                    return None, 'scope %s not found in %s' % (scope, rel)
+                lo, hi = span
+            seg = src[lo:hi]
+            if seg.count(old) != 1:
                 shutil.rmtree(tmp, ignore_errors=True)
-                return None, 'anchor text occurs %d times in %s' % (src.count(old), rel)
-            src = src.replace(old, new)
+                return None, 'anchor text occurs %d times in %s%s' % (seg.count(old), rel, ('::' + scope) if scope else '')
+            src = src[:lo] + seg.replace(old, new) + src[hi:]
             try:
                 compile(src, path, 'exec')
             except SyntaxError as e:
@@ -47,6 +57,28 @@ def make_variant(root, edits):
         return None, 'cannot build variant: %s' % e
 
 
+def scope_span(src, qual):
+    """Character span of a top-level function or Class.method."""
+    import ast
+    tree = ast.parse(src)
+    parts = qual.split('.')
+    body = tree.body
+    node = None
+    for part in parts:
+        node = None
+        for st in body:
+            if isinstance(st, (ast.FunctionDef, ast.ClassDef)) and st.name == part:
+                node = st
+                break
+        if node is None:
+            return None
+        body = node.body
+    lines = src.splitlines(keepends=True)
+    start = sum(len(l) for l in lines[:node.lineno - 1])
+    end = sum(len(l) for l in lines[:node.end_lineno])
+    return start, end
+
+
 def run_one(args):
     case, root = args
     from pcverif.cli import run_property
@@ -55,7 +87,10 @@ def run_one(args):
         return (case['id'], 'skipped', why, [])
     res = []
     try:
+        import importlib.util
         for prop in case['props']:
+            if importlib.util.find_spec('pcverif.props.%s' % prop) is None:
+                continue
             buf = io.StringIO()
             try:
                 with contextlib.redirect_stdout(buf):
